@@ -207,6 +207,12 @@ class _GridUFuncSignature:
         return canonical_form(self) == canonical_form(other)
 
 
+def _names_and_positions_of_argument(arg: str) -> Tuple[Tuple[str, ...], Tuple[str, ...]]:
+    """Split one argument of a signature, e.g. "(X:center,Y:left)", into axis names and positions."""
+    pairs = re.findall(f"({_AXIS_NAME}):({_AXIS_POSITION})", arg)
+    return tuple(name for name, _ in pairs), tuple(pos for _, pos in pairs)
+
+
 def _parse_signature_from_string(
     signature: str,
 ) -> Tuple[T_AX_POS_LIST, T_AX_POS_LIST, T_AX_POS_LIST, T_AX_POS_LIST]:
@@ -224,23 +230,16 @@ def _parse_signature_from_string(
 
     in_txt, out_txt = signature.split("->")
 
-    in_ax_names = []
-    for arg in re.findall(_ARGUMENT, in_txt):
-        # Delete the axis positions so they aren't matched as axis names
-        only_names = re.sub(_AXIS_POSITION, "", arg)
-        in_ax_names.append(tuple(re.findall(_AXIS_NAME, only_names)))
-
-    out_ax_names = []
-    for arg in re.findall(_ARGUMENT, out_txt):
-        only_names = re.sub(_AXIS_POSITION, "", arg)
-        out_ax_names.append(tuple(re.findall(_AXIS_NAME, only_names)))
-
-    in_ax_pos = [
-        tuple(re.findall(_AXIS_POSITION, arg)) for arg in re.findall(_ARGUMENT, in_txt)
+    in_args = [
+        _names_and_positions_of_argument(arg) for arg in re.findall(_ARGUMENT, in_txt)
     ]
-    out_ax_pos = [
-        tuple(re.findall(_AXIS_POSITION, arg)) for arg in re.findall(_ARGUMENT, out_txt)
+    out_args = [
+        _names_and_positions_of_argument(arg) for arg in re.findall(_ARGUMENT, out_txt)
     ]
+    in_ax_names = [names for names, _ in in_args]
+    in_ax_pos = [positions for _, positions in in_args]
+    out_ax_names = [names for names, _ in out_args]
+    out_ax_pos = [positions for _, positions in out_args]
 
     return in_ax_names, in_ax_pos, out_ax_names, out_ax_pos
 
@@ -271,15 +270,9 @@ def _parse_signature_from_type_hints(
             if hasattr(hint, "__metadata__")
         ]
 
-        out_ax_names = []
-        for arg in return_annotations:
-            # Delete the axis positions so they aren't matched as axis names
-            only_names = re.sub(_AXIS_POSITION, "", arg)
-            out_ax_names.append(tuple(re.findall(_AXIS_NAME, only_names)))
-
-        out_ax_pos = [
-            tuple(re.findall(_AXIS_POSITION, arg)) for arg in return_annotations
-        ]
+        out_args = [_names_and_positions_of_argument(arg) for arg in return_annotations]
+        out_ax_names = [names for names, _ in out_args]
+        out_ax_pos = [positions for _, positions in out_args]
 
     # Now do input args
     arg_annotations = [
@@ -288,13 +281,9 @@ def _parse_signature_from_type_hints(
 
     # TODO check number of annotations?
 
-    in_ax_names = []
-    for arg in arg_annotations:
-        # Delete the axis positions so they aren't matched as axis names
-        only_names = re.sub(_AXIS_POSITION, "", arg)
-        in_ax_names.append(tuple(re.findall(_AXIS_NAME, only_names)))
-
-    in_ax_pos = [tuple(re.findall(_AXIS_POSITION, arg)) for arg in arg_annotations]
+    in_args = [_names_and_positions_of_argument(arg) for arg in arg_annotations]
+    in_ax_names = [names for names, _ in in_args]
+    in_ax_pos = [positions for _, positions in in_args]
 
     # Do a sanity check before going any further
     str_signature = str(
